@@ -107,7 +107,15 @@ def gen_kernel(rng, zones, invalid=False, nonmonotone=False, fullrep=False):
         elif r < 0.82:
             v = fresh("b")
             h = rng.choice(grids)
-            lines += [f"if c:", f"    {v} = {g}", "else:", f"    {v} = {h}"]
+            if rng.random() < 0.35:
+                # one arm is a grid the analysis knows nothing about (result of a helper written without annotations)
+                inside = rng.choice([g, f"grid.sub_grid({g}, [0, 1], [0])", f"{g}[0:2, 0]", f'spec.get_static_trap(zone_id="{zn()}")',
+                                     f'spec.get_static_trap(zone_id="{zn()}")[0:2, 0]'] + (['spec.get_static_trap(zone_id="nowhere")'] if invalid else []))
+                arms = [inside, f"loose({h})"]
+                rng.shuffle(arms)
+                lines += [f"if c:", f"    {v} = {arms[0]}", "else:", f"    {v} = {arms[1]}"]
+            else:
+                lines += [f"if c:", f"    {v} = {g}", "else:", f"    {v} = {h}"]
             grids.append(v)
         elif r < 0.92:
             v = fresh("r")
@@ -119,7 +127,8 @@ def gen_kernel(rng, zones, invalid=False, nonmonotone=False, fullrep=False):
             others.append(v)
     ret = ", ".join(grids + others)
     body = "\n".join("    " + l for l in lines)
-    helpers = ("@move\ndef ident(g: grid.Grid[Any, Any]):\n    return g\n\n@move\ndef corner(g: grid.Grid[Any, Any]):\n    return g[0, 0]\n\n")
+    helpers = ("@move\ndef ident(g: grid.Grid[Any, Any]):\n    return g\n\n@move\ndef corner(g: grid.Grid[Any, Any]):\n    return g[0, 0]\n\n"
+               "@move\ndef loose(g):\n    return g\n\n")
     return helpers + "@move{DEC}\ndef main(c: bool):\n" + body + f"\n    return ({ret},)\n"
 
 
